@@ -113,11 +113,14 @@ def run(ctx):
             one_stage(ctx, "c11exh3", 0, {"VERIF_C11_EXH": "3", "VERIF_C11_EXH_ONLY": "1"}, 3000, off, timeout=2400)
 
     return standard(ctx, "C11", ["model/C11_run.vo"], stages,
-                    rule="random service lists (0-5 writable, 0-2 read-only, disk/proxy/mixed, duplicate URLs), want 1-3, retries 0-3, "
+                    rule="random service lists (0-5 writable, 0-2 read-only, disk/proxy/mixed, duplicate URLs), in 65% of the random cases loaded "
+                         "after 1-2 earlier lists (read_only flips with unchanged uuids/URLs, all-writable/all-read-only, service removed/added, "
+                         "URL or type changed, same, disjoint), want 1-3, retries 0-3, "
                          "PutB/PutHB/PutHR (oversize, wrong hash, wrong length), per-attempt answers from {200 with stored 0..3 or "
                          "without header, 400, 403, 408, 429, 500, 502, 503, connection error}, random completion schedules; "
                          "distinct by hash of the case term; non-trivial = at least two uploads completed",
                     assumptions=["the rendezvous order of the services is an input taken from NewRootSorter (property C12)",
+                                 "service lists reach the client through LoadKeepServicesFromJSON (the API poller path is driven by the C12 check); uuids within a list are distinct",
                                  "net/http is replaced by a stub that fails a request whose body does not match ContentLength or whose body reader fails",
                                  "goroutine scheduling and the network are replaced by the model's completion schedule, reproduced by per-request gates",
                                  "md5 of the data is a table supplied by the harness (H is a parameter of the model)"])
